@@ -1,6 +1,6 @@
 """C15 - learner-to-transformer wrappers are transparent."""
 from vf import loader
-from vf.core import Clause, Outcome, Violation, require
+from vf.core import Clause, Outcome, Violation, require, np_scalars
 from vf import registry as R
 from vf import estimators as H
 
@@ -249,7 +249,15 @@ def check_transfer(case):
     Z = np.vstack([X0[:4], X0[::3]])
     before = _state(est, Z)
     blob = pickle.dumps(est)
-    tt = _tt(est, method=case["method"], copy_estimator=case["copy_estimator"], trainable=case["trainable"])
+    # the two flags may come as NumPy booleans or 0/1 (a flag computed from data, an element of a parameter grid built from an array)
+    flags = dict(copy_estimator=case["copy_estimator"], trainable=case["trainable"])
+    fk = case.get("flag_kind", "bool")
+    if fk == "numpy":
+        flags = np_scalars(flags)
+    elif fk == "int":
+        flags = {k: int(v) for k, v in flags.items()}
+    facts["flag_kind"] = fk
+    tt = _tt(est, method=case["method"], **flags)
     eff = tt.method
     for i in case["history"]:
         X, y, _ = datasets[i]
@@ -291,7 +299,7 @@ def check_transfer(case):
                 d = _same_state(_state(est, Z), before)
                 require(d is None, "transfer:original-changed", "copy_estimator=True but the original estimator was retrained: %s" % d, facts)
     return Outcome(["copy" if case["copy_estimator"] else "reference", "trainable" if case["trainable"] else "frozen", "method=%s" % eff,
-                    facts["estimator"]], case["trainable"] or not case["copy_estimator"] or len(set(case["history"])) > 1)
+                    facts["estimator"], "flags:" + fk], case["trainable"] or not case["copy_estimator"] or len(set(case["history"])) > 1)
 
 
 @st.composite
@@ -307,7 +315,7 @@ def _transfer_cases(draw, tier="quick"):
     d = len(ds[0]["X"][0])
     ds[1]["X"] = [(row + [0.0] * d)[:d] for row in ds[1]["X"]]
     return dict(estimator=est, method=draw(st.sampled_from(ms)), copy_estimator=draw(st.booleans()), trainable=draw(st.booleans()), datasets=ds,
-                mutate_original=draw(st.booleans()),
+                mutate_original=draw(st.booleans()), flag_kind=draw(st.sampled_from(["bool", "bool", "numpy", "int"])),
                 history=[draw(st.integers(0, 1)) for _ in range(draw(st.integers(1, 3)))])
 
 
